@@ -233,10 +233,10 @@ var vC03Model = porcupine.Model{
 
 type vC03Slot struct {
 	kind  int
-	out   *verifgen.Out        // utxo
-	dep   *common.DepositData  // deposit identifier (chain, transaction, index)
-	batch uint64               // mint
-	users map[int]bool         // transactions that spend this slot
+	out   *verifgen.Out       // utxo
+	dep   *common.DepositData // deposit identifier (chain, transaction, index)
+	batch uint64              // mint
+	users map[int]bool        // transactions that spend this slot
 }
 
 type vC03Tx struct {
